@@ -80,7 +80,8 @@ class MPLSVPN(NLRI):
                 prefix_byte_len = int(prefix_bit_len / 8) + 1
 
             if not iswithdraw:
-                nlri_dict['label'] = cls.parse_mpls_label_stack(value[1:])
+                # the label stack lies inside this route, do not scan the routes that follow
+                nlri_dict['label'] = cls.parse_mpls_label_stack(value[1:prefix_byte_len + 1])
             else:
                 nlri_dict['label'] = [MPLSVPN.WITHDARW_LABEL]
 
